@@ -547,4 +547,18 @@ theorem value_span_end : type_of% @Sipsp.ns_value_vend := @Sipsp.ns_value_vend
     kinds with several values; buffers within the 65,535-byte limit) -/
 theorem value_span_start : type_of% @Sipsp.ns_value_lead := @Sipsp.ns_value_lead
 
+/-! ### the link to the header parser (the 'several lines' theorems above are about the fold; this ties it to ParseHdrLine / ParseHeaders) (proved in `Sipsp.Proofs.HdrTyped`) -/
+
+/-- **Contact**: name, colon, a comma-separated list of name-addr values of the C09 grammar ending with the line end.
+    The header's value runs from the start of the first value to the end of the last one (`htSpan`, see
+    `ht_lhv_line`); the contacts object is `htLine` of the old one: header counter bumped, values accepted in order. -/
+theorem contact_line_through_hdrline : type_of% @Sipsp.ht_contact_values := @Sipsp.ht_contact_values
+
+/-- **To** -/
+theorem to_value_through_hdrline : type_of% @Sipsp.ht_to_value := @Sipsp.ht_to_value
+
+/-- **ParseHeaders on a well-formed block with a values object**: one header per line, in order (generic and typed
+    lines mixed), the values object as left by the typed lines, then the end of the block -/
+theorem block_through_parseheaders : type_of% @Sipsp.ht_parseHeaders_block := @Sipsp.ht_parseHeaders_block
+
 end Sipsp.C09
